@@ -299,6 +299,22 @@ type result struct {
 	// versionedConst: for a value defined inside an unrolled loop, whether it was a
 	// constant in every iteration copy that ran (the joined value in env may be ⊤)
 	versionedConst map[ssa.Value]bool
+	// siteDecided / siteUndecided: how often an index or slice instruction (here or
+	// in an inlined callee) was evaluated with its operand length and bounds known
+	// (then a hazard is recorded if it is out of range) / not all known
+	siteDecided   map[ssa.Instruction]int
+	siteUndecided map[ssa.Instruction]int
+}
+
+func (r *result) noteSite(ins ssa.Instruction, decided bool) {
+	if r.siteDecided == nil {
+		r.siteDecided, r.siteUndecided = map[ssa.Instruction]int{}, map[ssa.Instruction]int{}
+	}
+	if decided {
+		r.siteDecided[ins]++
+	} else {
+		r.siteUndecided[ins]++
+	}
 }
 
 // val returns the abstract value of v at the fixpoint (pins first).
@@ -364,6 +380,16 @@ type analyzer struct {
 }
 
 func newAnalyzer() *analyzer {
+	an := newAnalyzer0()
+	if theProgram != nil {
+		// package-level maps of the repository that are built once from constant keys
+		// and never written afterwards are looked up exactly
+		an.globalMaps = theProgram.allConstMaps()
+	}
+	return an
+}
+
+func newAnalyzer0() *analyzer {
 	return &analyzer{pin: map[ssa.Value]aval{}, maxDepth: 7, maxBlocks: 80, noInline: map[*ssa.Function]bool{}, unroll: 4}
 }
 
@@ -639,6 +665,7 @@ func (an *analyzer) runOnce(fn *ssa.Function, params []aval, free []aval, depth 
 			break
 		}
 		res.rets, res.hazards, res.calls, res.unknownIfs = nil, nil, nil, 0
+		res.siteDecided, res.siteUndecided = nil, nil
 		mark := func(from, to int) {
 			tk := toVer(fn.Blocks[from], fn.Blocks[to], curK)
 			if !execEV[[4]int{from, curK, to, tk}] {
@@ -1221,6 +1248,8 @@ func isErrorType(t types.Type) bool {
 
 func (an *analyzer) indexHazard(ins ssa.Instruction, a, i aval, res *result) {
 	n, ok := lenOf(a)
+	_, idxKnown := constInt(i)
+	res.noteSite(ins, ok && idxKnown)
 	if !ok {
 		return
 	}
@@ -1239,6 +1268,22 @@ func (an *analyzer) evalSlice(x *ssa.Slice, get func(ssa.Value) aval, res *resul
 		return bot
 	}
 	n, ok := lenOf(a)
+	{
+		known := ok
+		if x.Low != nil {
+			if _, c := constInt(get(x.Low)); !c {
+				known = false
+			}
+		}
+		if x.High != nil {
+			if _, c := constInt(get(x.High)); !c {
+				known = false
+			}
+		}
+		if x.Low != nil || x.High != nil {
+			res.noteSite(x, known)
+		}
+	}
 	if !ok {
 		return top
 	}
@@ -1510,6 +1555,16 @@ func (an *analyzer) call(x *ssa.Call, get func(ssa.Value) aval, depth int, res *
 		}
 		for _, co := range r.calls {
 			res.calls = append(res.calls, co)
+		}
+		for ins, n := range r.siteDecided {
+			for k := 0; k < n; k++ {
+				res.noteSite(ins, true)
+			}
+		}
+		for ins, n := range r.siteUndecided {
+			for k := 0; k < n; k++ {
+				res.noteSite(ins, false)
+			}
 		}
 		j := r.joinedReturn()
 		if j.k == kBot {
